@@ -183,6 +183,17 @@ Theorem C10_result_object_is_new_unless_specified :
 Proof. exact step_res_object. Qed.
 Print Assumptions C10_result_object_is_new_unless_specified.
 
+(* every buffer a result is made of - the array itself, the attributes of a returned plane / spectrum, the fields of a
+   returned wavefront - is either allocated by the call or one of the caller buffers listed by [may_alias]: the arrays a
+   plane / spectrum is constructed from, the arrays of the plane fit_tilt is called on, the out= / accumulation buffer,
+   the wave array of the spectrum operand.  No other call hands back memory the caller already owns *)
+Theorem C10_results_alias_only_as_specified :
+  forall (K : kernels) (s : state) (o : op) (i : aid),
+  In i (res_slots (fst (step K s o)) (o_res (snd (step K s o)))) ->
+  In i (may_alias s o) \/ (length (hp s) <= i)%nat.
+Proof. exact step_res_alias. Qed.
+Print Assumptions C10_results_alias_only_as_specified.
+
 (* copy, rescale/resample and fit_tilt(inplace=False) of a non-Image plane hand back a new plane made of new buffers
    only: with C10_frame, nothing done to the result can reach the original *)
 Theorem C10_new_planes_share_nothing :
@@ -202,8 +213,12 @@ Example C10_deepen_nonvacuous :
               OPlane 2 (Some 0%nat) (Some 0%nat) None 1; OFitTilt 4 false; OCopy 4] in
   map (fun x => (o_status (snd (snd x)), o_res (snd (snd x)))) (trace K init ops)
     = [(0, VArr 0%nat); (1, VNone); (0, VObj 0%nat); (4, VNone); (0, VObj 1%nat); (0, VObj 1%nat); (0, VObj 2%nat)] /\
-  match nth_error (trace K init ops) 6 with Some (pre, o, _) => makes_new_plane pre o | None => false end = true.
-Proof. vm_compute. split; reflexivity. Qed.
+  match nth_error (trace K init ops) 6 with Some (pre, o, _) => makes_new_plane pre o | None => false end = true /\
+  (* the Image plane of step 4 is made of the caller's array 0 (twice) and one new buffer: exactly what may_alias allows *)
+  match nth_error (trace K init ops) 4 with
+  | Some (pre, o, (post, out)) => (res_slots post (o_res out), may_alias pre o)
+  | None => ([], []) end = ([0%nat; 0%nat; 2%nat], [0%nat; 0%nat]).
+Proof. vm_compute. repeat split; reflexivity. Qed.
 
 (* non-vacuity: a concrete history (two arrays, a plane on them, in-place tilt fit - which rebinds the plane's opd and
    writes no buffer -, two dft2 of the same shape, the second into an output buffer) is reachable, fills the cache, and performs exactly the documented writes *)
